@@ -1490,6 +1490,11 @@ class Tensor:
             kwargs["shape"] = new_shape
 
         swizzled = Tensor.fromFiber(**kwargs)
+        swizzled.setMutable(self.isMutable())
+
+        # Maintain the formats of all ranks
+        for rank_id in rank_ids:
+            swizzled.setFormat(rank_id, self.getFormat(rank_id))
 
         # For each fiber, reset its active range
         frontier = [swizzled.getRoot()]
